@@ -48,6 +48,7 @@ type fixedScenario struct {
 	name       string
 	params     string
 	thorParams string
+	enum       bool // size comes from `worker -enumsize`
 	runs       func(tier string) int64
 }
 
@@ -639,6 +640,7 @@ func main() {
 		params   string
 	}
 	var jobs []job
+	enumRuns := map[string]int64{}
 	chunk := (runs + int64(nw) - 1) / int64(nw)
 	// smaller chunks balance better and bound per-process memory
 	for chunk > 4000 {
@@ -660,6 +662,14 @@ func main() {
 	}
 	for _, fs := range cfg.scenarios {
 		n := fs.runs(tier)
+		if fs.enum {
+			out, err := runCmd(root, nil, worker, "-prop", prop, "-enumsize")
+			if err != nil {
+				trouble("worker -enumsize failed: %v\n%s", err, out)
+			}
+			n, _ = strconv.ParseInt(strings.TrimSpace(out), 10, 64)
+			enumRuns[fs.name] = n
+		}
 		per := (n + int64(nw) - 1) / int64(nw)
 		if per < 1 {
 			per = 1
